@@ -542,6 +542,9 @@ func (in *Interp) call(fn *ssa.Function, args []Value, bind []Value) Value {
 	if fn.Synthetic != "" && fn.Pkg != nil && strings.HasPrefix(fn.Synthetic, "package initializer") && !in.Ex.shouldInit(fn.Pkg) {
 		return nil
 	}
+	if fn.Pkg != nil && strings.HasPrefix(fn.Name(), "init#") && in.Ex.SkipInitFuncs[fn.Pkg.Pkg.Path()] {
+		return nil // explicit init() functions of this package are not part of any property (CLI wiring)
+	}
 	name := fn.String()
 	if st, ok := in.stubs[name]; ok {
 		return in.callValue(st, args)
